@@ -402,7 +402,7 @@ fn expand_tuple_assertion(value_expr: &TokenStream, pattern: &PatternTuple) -> T
 
     quote! {
         #[allow(unreachable_patterns)]
-        match #value_expr {
+        match &#value_expr {
             (#(#match_patterns),*) => {
                 #(#element_assertions)*
             },
